@@ -380,7 +380,7 @@ func monC15(c *child.Ctx, replay json.RawMessage) {
 	pool := framePool(poolSeed)
 	cn := buildCanon(pool)
 	c.Count("max_frame_pool_size", int64(len(pool)))
-	nh := c.Share(c.Pick(120, 10000))
+	nh := c.Share(c.Pick(120, 3000))
 	for i := 0; i < nh; i++ {
 		k := detCase{PoolSeed: poolSeed, Kind: "history", Seed: r.Uint64() >> 1}
 		n := 200
@@ -398,7 +398,7 @@ func monC15(c *child.Ctx, replay json.RawMessage) {
 			c.Sample(map[string]interface{}{"kind": "history", "pool_size": len(pool), "order_prefix": k.Order[:20]})
 		}
 	}
-	nc := c.Share(c.Pick(40, 6400))
+	nc := c.Share(c.Pick(40, 1500))
 	for i := 0; i < nc; i++ {
 		k := detCase{PoolSeed: poolSeed, Kind: "concurrent", Handlers: r.Range(2, 16), Consumers: r.Range(2, 4), Procs: []int{16, 2, 4}[r.Intn(3)], Seed: r.Uint64() >> 1}
 		cj := c.BeginV(k)
